@@ -1,0 +1,8 @@
+// Verification hooks (see /verif/DESIGN.md §3) are disabled in this build.
+
+//go:build !verif
+
+package sqlite
+
+// verifPoint is a no-op unless built with -tags verif.
+func verifPoint(string) {}
